@@ -52,7 +52,7 @@ func arbitraryState(L, Lb int) *c01State {
 	b.key = nondetString(kl)
 	st.preIn = nondetBool()
 	st.preOut = nondetBool()
-	b.noMore = nondetBool()
+	setFlag(&b.noMore, nondetBool())
 	if st.preIn {
 		b.cancelIn = func() { st.inCanc++ }
 	}
@@ -80,7 +80,7 @@ func arbitraryState(L, Lb int) *c01State {
 	}
 	st.tearing = b.key == "" && (st.preIn || st.preOut)
 	st.preKey = b.key
-	st.preNoMore = b.noMore
+	st.preNoMore = getFlag(&b.noMore)
 	return st
 }
 
@@ -171,7 +171,7 @@ func HarnessC01Step() {
 				peerLeftFirst = true
 			}
 		case 3:
-			b.noMore = true
+			setFlag(&b.noMore, true)
 		}
 		b.mu.Unlock()
 		if proxyErr {
@@ -193,7 +193,7 @@ func HarnessC01Step() {
 		verifAssert(entered == 0, "C01.refused.no-io")
 		verifAssert(b.key == st.preKey, "C01.refused.key-unchanged")
 		verifAssert((b.cancelIn != nil) == st.preIn && (b.cancelOut != nil) == st.preOut, "C01.refused.streams-unchanged")
-		verifAssert(b.noMore == st.preNoMore, "C01.refused.nomore-unchanged")
+		verifAssert(getFlag(&b.noMore) == st.preNoMore, "C01.refused.nomore-unchanged")
 		verifAssert(st.inCanc == 0 && st.outCanc == 0, "C01.refused.nobody-cancelled")
 		lines := drain(st.och)
 		if st.preNoMore {
@@ -316,8 +316,32 @@ func HarnessC01Init() {
 	verifAssert((err == nil) == (b != nil), "C01.init.ok")
 	if b != nil {
 		verifReach("C01.init.broker")
-		verifAssert(b.key == "" && b.cancelIn == nil && b.cancelOut == nil && !b.noMore, "C01.init.idle")
+		verifAssert(b.key == "" && b.cancelIn == nil && b.cancelOut == nil && !getFlag(&b.noMore), "C01.init.idle")
 		verifAssert(len(b.bidirKey) == bidirKeyLen, "C01.init.bidirkey-len")
 	}
 	verifReach("C01.init")
+}
+
+// setFlag / getFlag: access to a boolean field whatever its representation (plain bool or
+// sync/atomic.Bool), so that the harness survives that refactor.
+func setFlag(p any, v bool) {
+	switch x := p.(type) {
+	case *bool:
+		*x = v
+	case interface{ Store(bool) }:
+		x.Store(v)
+	default:
+		verifAssert(false, "harness: unknown flag representation")
+	}
+}
+
+func getFlag(p any) bool {
+	switch x := p.(type) {
+	case *bool:
+		return *x
+	case interface{ Load() bool }:
+		return x.Load()
+	}
+	verifAssert(false, "harness: unknown flag representation")
+	return false
 }
